@@ -308,8 +308,13 @@ def check_template_class(ctx, case, th, h, vw):
     vp, vm, Tp, Tm = (float(x) for x in m)
     ctx.count("template_class_matching", dict(case=case, vw=vw),
               bucket="detonation" if vw > ht.vJ else "deflagration/hybrid")
+    if not (all(math.isfinite(x) for x in (vp, vm, Tp, Tm)) and 0 < vp < 1 and 0 < vm < 1
+            and Tp > 0 and Tm > 0):
+        # judged by C15 (template-alpha-below-threshold: NaN temperatures) / edge v+ -> 0
+        ctx.count("template_class_not_a_matching")
+        return
     e1, e2, m1, m2 = fluxes(th, vp, vm, Tp, Tm)
-    tol = 1e-9 / ((1 - vp * vp) * (1 - vm * vm))
+    tol = 1e-7 / ((1 - vp * vp) * (1 - vm * vm))
     re_ = abs(e1 - e2) / max(abs(e1), abs(e2))
     rm_ = abs(m1 - m2) / max(abs(m1), abs(m2))
     c1, c2 = float(hb[0]), float(hb[1])
@@ -506,9 +511,10 @@ def failure_key(h, vw, kind, fallback, state, slow_fallback_mech=False):
             # at vw == vJ (to 1e-8) the hybrid branch finds no bracket and hands over to the
             # template model
             return "template-fallback-at-vJ"
-        if corner and slow_fallback_mech and kind in ("energy-flux", "momentum-flux",
-                                                      "fallback", "c1-rear", "c2-rear",
-                                                      "range"):
+        if h.vMin == h.vBracketLow and slow_fallback_mech and kind in (
+                "energy-flux", "momentum-flux", "fallback", "c1-rear", "c2-rear", "range"):
+            # mechanism: an exact matching exists whose v+ lies below the bracket floor
+            # vBracketLow (vw up to vBracketLow * vw/v+, not only vw < 1.5e-3)
             return "slow-wall-template-fallback"
         return GENERIC_KEY.get(kind, kind)
     if kind == "residual-not-small" and state == "ok" and corner:
@@ -616,7 +622,8 @@ def check_point(ctx, case, th, h, vw, stats=None):
             return rec
         bads.append(("returned values out of range: %r" % ((vp, vm, Tp, Tm),), "range"))
         return report(state, fallback=spy.fallback,
-                      slow_mech=bool(spy.fallback) and h.vMin == h.vBracketLow)
+                      slow_mech=bool(spy.fallback) and h.vMin == h.vBracketLow
+                      and vw < 1.5 * h.vBracketLow)
     if 0 < vp <= 10 * h.atol and branch != "detonation":
         ctx.count("degenerate_edge_skipped")
         return rec
@@ -697,9 +704,12 @@ def check_point(ctx, case, th, h, vw, stats=None):
             if fun is not None:
                 d = 4 * (h.atol + h.rtol * Tm)
                 lo, hi = max(Tm - d, h.Tnucl), Tm + d
-                flo, fhi, f0 = fun(lo), fun(hi), fun(Tm)
+                # (near vJ the residual has two roots a few atol apart: look for ANY sign
+                # change inside the window, not only between its ends)
+                vals = [float(fun(lo + (hi - lo) * k / 32.0)) for k in range(33)] + [
+                    float(fun(Tm))]
                 ctx.count("accuracy", bucket="brentq")
-                if not (flo * fhi <= 0 or f0 == 0):
+                if not (min(vals) <= 0 <= max(vals)):
                     bads.append(("brentq result Tm=%.12g is not within 4(atol+rtol Tm) of a "
                                  "sign change of tmFromvpsq" % Tm, "deton-root"))
         elif info is not None:
@@ -815,8 +825,9 @@ def check_model_constants(ctx, case, th, h):
             ctx.fail_input("Jouguet velocity %.12g, closed form %.12g [%s]" % (
                 h.vJ, h.template.vJ, case["kind"]), dict(case=case, vw=h.vJ, kind="vJ",
                                                          rtol=h.rtol, atol=h.atol), key="vJ")
-    if h.vMin > 2 * h.vBracketLow:
-        # shock-limited minimal velocity: 10% below it no matching may exist
+    if h.vMin > 2 * h.vBracketLow and case["kind"] in ("template", "bag"):
+        # shock-limited minimal velocity: 10% below it no matching may exist (equations of
+        # state that are physical at every temperature only)
         ctx.count("vMin_checked")
         vw = 0.9 * h.vMin
         exists, where = exact_matching_exists(h, vw)
@@ -868,10 +879,11 @@ def check_histories(ctx, case, th, pristine, rng, full=False):
                     a, b = call_result(shared, meth, vw), call_result(fresh, meth, vw)
                     hist.append((meth, vw))
                     ctx.count("history_call", bucket=name)
-                    if a != b and not (len(a) == len(b) and all(
-                            x is not None and y is not None and not isinstance(x, str)
-                            and not isinstance(y, str) and same(x, y, 4)
-                            for x, y in zip(a, b))):
+                    def eqv(x, y):
+                        if isinstance(x, float) and isinstance(y, float):
+                            return (math.isnan(x) and math.isnan(y)) or same(x, y, 4)
+                        return x == y
+                    if not (len(a) == len(b) and all(eqv(x, y) for x, y in zip(a, b))):
                         ctx.fail_input(
                             "%s(%.12g) after the calls %r on the same object returns %r, a "
                             "fresh object returns %r [%s]" % (meth, vw, hist[:-1], a, b,
